@@ -25,7 +25,7 @@ def keys_stream(ctx):
     jobs = [("enc", "age"), ("enc", "pgp"), ("sig", "minisign"), ("sig", "pgp")]
     def one(j):
         kind, fmt = j
-        return run_cmd("keys", {"enc": [fmt] if kind == "enc" else [], "sig": [fmt] if kind == "sig" else [], "passwords": pws, "wrong": wrong}, timeout=3000)
+        return run_cmd("keys", {"enc": [fmt] if kind == "enc" else [], "sig": [fmt] if kind == "sig" else [], "passwords": pws, "wrong": wrong, "bulk": 96 if quick else 600}, timeout=3000)
     with ThreadPoolExecutor(max_workers=4) as ex:
         res = list(ex.map(one, jobs))
     data = dict(passwords=pws, wrong=wrong, results=[dict(job=j, out=o, rc=rc, err=e) for j, (o, rc, e) in zip(jobs, res)])
